@@ -33,7 +33,7 @@ pub broadcast group axiom_range_usize {
 #[verifier::external_body]
 #[verifier::reject_recursive_types(A)]
 #[verifier::reject_recursive_types(T)]
-pub struct ExDrain<'a, T: 'a, A: core::alloc::Allocator>(std::vec::Drain<'a, T, A>);
+pub struct ExDrain<'a, T: 'a, A: core::alloc::Allocator>(::std::vec::Drain<'a, T, A>);
 
 // slice::sort_by_cached_key (and the other stable/unstable by-key sorts have the same contract):
 // the result is a permutation of the input, and the keys that `f` returned for the elements are in
@@ -84,7 +84,7 @@ pub assume_specification<T, K, F>[ <[T]>::sort_unstable_by_key ](s: &mut [T], f:
 ;
 
 // Vec::drain(range): removes the range; the returned iterator yields exactly the removed items.
-pub assume_specification<'a, T, A, R>[ std::vec::Vec::<T, A>::drain ](v: &'a mut std::vec::Vec<T, A>, r: R) -> (d: std::vec::Drain<'a, T, A>) where
+pub assume_specification<'a, T, A, R>[ ::std::vec::Vec::<T, A>::drain ](v: &'a mut ::std::vec::Vec<T, A>, r: R) -> (d: ::std::vec::Drain<'a, T, A>) where
     A: core::alloc::Allocator,
     R: core::ops::RangeBounds<usize>,
 
@@ -96,7 +96,7 @@ pub assume_specification<'a, T, A, R>[ std::vec::Vec::<T, A>::drain ](v: &'a mut
 ;
 
 // Vec::extend(iter): appends the iterator's items in order.
-pub assume_specification<T, A, I>[ <std::vec::Vec<T, A> as core::iter::Extend<T>>::extend ](v: &mut std::vec::Vec<T, A>, i: I) where
+pub assume_specification<T, A, I>[ <::std::vec::Vec<T, A> as core::iter::Extend<T>>::extend ](v: &mut ::std::vec::Vec<T, A>, i: I) where
     A: core::alloc::Allocator,
     I: core::iter::IntoIterator<Item = T>,
 
